@@ -53,6 +53,22 @@ func (Implementation) Dger(m, n int, alpha float64, x []float64, incX int, y []f
 	if alpha == 0 {
 		return
 	}
+	if incX < 0 || incY < 0 {
+		// The assembly implementation of Ger does not support negative increments.
+		var kx, ky int
+		if incX < 0 {
+			kx = (1 - m) * incX
+		}
+		if incY < 0 {
+			ky = (1 - n) * incY
+		}
+		ix := kx
+		for i := 0; i < m; i++ {
+			f64.AxpyInc(alpha*x[ix], y, a[i*lda:i*lda+n], uintptr(n), uintptr(incY), 1, uintptr(ky), 0)
+			ix += incX
+		}
+		return
+	}
 	f64.Ger(uintptr(m), uintptr(n),
 		alpha,
 		x, uintptr(incX),
